@@ -11,7 +11,8 @@ EXPLANATION = (
     "dominating the request message built from it; oneway neither reads nor writes a reply (client and server); every reply the "
     "server builds echoes the received sequence number and serializer; the retry loop is bounded and limited to "
     "connection-closed/timeout; the receive filter raises before the body is read and the client accepts only MSG_RESULT; a "
-    "released proxy reconnects before its next send; one thread per oneway request. "
+    "released proxy reconnects before its next send; one thread per oneway request; only construction and the per-request increment "
+    "write the sequence counter; the server remembers the request's flags/seq/serializer before anything in the guarded region can fail. "
     "Not decided: execution counts under fault scripts, what the transport delivers."
 )
 
